@@ -151,6 +151,35 @@ def mcb_sizes(adj):
     return sizes, mu
 
 
+def all_cycles_mcb_sizes(adj):
+    """sorted sizes of a minimum cycle basis by the matroid greedy over ALL simple cycles (exponential; tiny graphs only).
+    Independent of Horton's candidate-set theorem: used to validate the two Horton-based references."""
+    edges, eidx = edge_index(adj)
+    mu = len(edges) - len(adj) + len(components(adj))
+    cycles = set()
+
+    def dfs(start, cur, path, vec):
+        for nxt in adj[cur]:
+            e = 1 << eidx[(min(cur, nxt), max(cur, nxt))]
+            if nxt == start and len(path) >= 3:
+                cycles.add((len(path), vec | e))
+            elif nxt > start and nxt not in path:
+                dfs(start, nxt, path + [nxt], vec | e)
+    for v in adj:
+        dfs(v, v, [v], 0)
+    basis, sizes = [], []
+    for ln, vec in sorted(cycles):
+        if len(sizes) == mu:
+            break
+        r = vec
+        for b in basis:
+            r = min(r, r ^ b)
+        if r:
+            basis.append(r)
+            sizes.append(ln)
+    return sizes, mu
+
+
 def basis_defects(adj, rings):
     """clauses of the property the ring list violates on graph `adj` (minimality excluded)"""
     edges, eidx = edge_index(adj)
@@ -395,6 +424,12 @@ class time_limit:
 
 
 SSSR_TIME_LIMIT = 30
+_timeouts = {'n': 0}
+
+
+def sssr_limit():
+    """generous for the first case that does not come back, short afterwards (a hanging mutant must not stall the run)"""
+    return SSSR_TIME_LIMIT if _timeouts['n'] == 0 else 2
 
 
 def impl_fields(mol):
@@ -409,11 +444,13 @@ def impl_fields(mol):
     f['skinns'] = show_adj(_skin_graph(ns))
     f['rc'] = str(mol.rings_count)
     try:
-        with time_limit(SSSR_TIME_LIMIT):
+        with time_limit(sssr_limit()):
             rings = [tuple(r) for r in mol.sssr]
     except ImplementationError:
         return f, None, 'lib:ImplementationError'
     except Exception as e:  # crash inside the heuristic
+        if isinstance(e, TimeoutError):
+            _timeouts['n'] += 1
         return f, None, 'crash:' + type(e).__name__
     # dict key order and the order of the rings inside a per-atom list are not part of the property: sorted
     f['ar'] = ';'.join(f'{n}:' + '/'.join(canon_ring(r) for r in sorted(tuple(r) for r in rs))
@@ -457,6 +494,9 @@ def evaluate(cases, build_ok=True):
             res['suspects'].append(ints)
     items = []
     for tag, ints in cases:
+        if _timeouts['n'] >= 8:   # ring perception keeps hanging: stop feeding it, the broken stream is already recorded
+            res['dist']['skipped-after-repeated-timeouts'] += 1
+            continue
         mol, _ = wire.ints_to_mol(ints)
         adj = ns_adj(mol)
         fields, rings, err = impl_fields(mol)
@@ -491,6 +531,16 @@ def evaluate(cases, build_ok=True):
         for k in K_FIELDS:
             if k in fields and r.get(k) != fields[k]:   # ring views are absent when sssr raised
                 broke('correspondence', k, f'{tag}: model {k}={r.get(k)!r} impl {k}={fields[k]!r} wire={ints}', ints)
+        # the two independent reference implementations (Lean Horton+greedy, Python Horton+greedy; for <= 6 atoms also
+        # the greedy over all simple cycles) must agree on the size multiset of a minimum cycle basis
+        pyref = ','.join(map(str, mcb_sizes(adj)[0]))
+        if r.get('ref') != pyref:
+            broke('relational', 'reference-minimum-basis', f'{tag}: Lean minBasis sizes {r.get("ref")} vs Python {pyref} wire={ints}', ints)
+        if ints[0] <= 6 and mu > 0:
+            allc = ','.join(map(str, all_cycles_mcb_sizes(adj)[0]))
+            d['reference-validated-against-all-cycles-greedy'] += 1
+            if allc != pyref:
+                broke('relational', 'reference-minimum-basis', f'{tag}: Horton sizes {pyref} vs all-cycles greedy {allc} wire={ints}', ints)
         if err is not None:
             continue
         gap = None
@@ -821,12 +871,14 @@ def property_failures(ints, check_numbering=True, rng=None, apply_exemptions=Tru
     if {n: set(ms) for n, ms in sk.items()} != core2:
         add('skin-graph', f'skin_graph={sk} but the 2-core is {core2}')
     try:
-        with time_limit(SSSR_TIME_LIMIT):
+        with time_limit(sssr_limit()):
             rings = [tuple(r) for r in mol.sssr]
     except ImplementationError as e:
         add('sssr-raises', f'ImplementationError({e})')
         return out
     except Exception as e:
+        if isinstance(e, TimeoutError):
+            _timeouts['n'] += 1
         out.append(('sssr-crashes', type(e).__name__))
         return out
     defects = basis_defects(adj, rings)
@@ -892,12 +944,16 @@ def shrink(ints, clause, apply_exemptions=True):
             return any(c == clause for c, _ in property_failures(x, check_numbering=False, apply_exemptions=apply_exemptions))
         except Exception:
             return False
+    import time
+    deadline = time.time() + 20
     if not fails(build_ints(atoms, edges)):
         return ints
     changed = True
-    while changed:
+    while changed and time.time() < deadline:
         changed = False
         for v in list(atoms):
+            if time.time() > deadline:
+                break
             a2 = [x for x in atoms if x != v]
             e2 = [e for e in edges if v not in e[:2]]
             if a2 and fails(build_ints(a2, e2)):
